@@ -495,10 +495,15 @@ class eval_abs(object):
 
 
     def eval_op_bsf(self, args, op_size, cast_int):
+        # one operand (as the x86 lifter builds it) or (default, value)
+        if len(args) == 1:
+            return self.my_bsf(args[0])
         ret_value = self.my_bsf(args[1], args[0])
         return ret_value
 
     def eval_op_bsr(self, args, op_size, cast_int):
+        if len(args) == 1:
+            return self.my_bsr(args[0], op_size)
         ret_value = self.my_bsr(args[1], op_size, args[0])
         return ret_value
 
